@@ -36,15 +36,19 @@ theorem ctor_keeps_args (w : World) (a : Args) (w' : World) (i : Nat) (h : w.cto
     cases hf : a.flowsOk with
     | true => rfl
     | false => simp [World.ctor, hf] at h
+  have hz : (a.rescales && a.given == 0) = false := by
+    cases hz : (a.rescales && a.given == 0) with
+    | false => rfl
+    | true => simp [World.ctor, hf, hz] at h
   cases hm : a.multi with
   | true =>
-    simp only [World.ctor, hf, hm, Bool.not_true, Bool.false_eq_true, if_false, if_true, Except.ok.injEq,
+    simp only [World.ctor, hf, hz, hm, Bool.not_true, Bool.false_eq_true, if_false, if_true, Except.ok.injEq,
       Prod.mk.injEq] at h
     obtain ⟨rfl, rfl⟩ := h
     simp [World.observe, World.pushStr, World.newImol, World.newArr, World.phasesOf, World.rowIdsOf,
       World.newTc, World.newCf]
   | false =>
-    simp only [World.ctor, hf, hm, Bool.not_true, Bool.false_eq_true, if_false, Except.ok.injEq,
+    simp only [World.ctor, hf, hz, hm, Bool.not_true, Bool.false_eq_true, if_false, Except.ok.injEq,
       Prod.mk.injEq] at h
     obtain ⟨rfl, rfl⟩ := h
     simp [World.observe, World.pushStr, World.newImol, World.newRow, World.newPh, World.phasesOf,
@@ -58,17 +62,47 @@ theorem ctor_units_total (a : Args) (k c : Nat) :
     (a.units = none → a.total = none → a.row k c = rowOf (a.flows.getD k []) c) ∧
     (∀ t, a.units = none → a.total = some t → t ≠ 0 →
       a.row k c = rowOf (a.flows.getD k []) c * (t / a.given)) ∧
+    (a.units = none → a.total = some 0 → a.row k c = rowOf (a.flows.getD k []) c) ∧
     (∀ f, a.units = some (false, f) → a.total = none → a.row k c = rowOf (a.flows.getD k []) c / f) ∧
-    (∀ f t, a.units = some (false, f) → a.total = some t →
+    (∀ f t, a.units = some (false, f) → a.total = some t → (t ≠ 0 ∨ a.multi = false) →
       a.row k c = rowOf (a.flows.getD k []) c * (t / a.given) / f) ∧
-    (∀ f t, a.units = some (true, f) → a.total = some t →
+    (∀ f, a.units = some (false, f) → a.total = some 0 → a.multi = true →
+      a.row k c = rowOf (a.flows.getD k []) c / f) ∧
+    (∀ f t, a.units = some (true, f) → a.total = some t → (t ≠ 0 ∨ a.multi = false) →
       a.row k c = rowOf (a.flows.getD k []) c * (t / a.given) / f / a.mw c) := by
-  refine ⟨?_, ?_, ?_, ?_, ?_⟩
+  refine ⟨?_, ?_, ?_, ?_, ?_, ?_, ?_⟩
   · intro h1 h2; simp [Args.row, h1, h2]
-  · intro t h1 h2 h3; simp [Args.row, h1, h2, h3]
+  · intro t h1 h2 h3; simp [Args.row, Args.rescales, h1, h2, h3]
+  · intro h1 h2; simp [Args.row, Args.rescales, h1, h2]
   · intro f h1 h2; simp [Args.row, h1, h2]
-  · intro f t h1 h2; simp [Args.row, h1, h2]
-  · intro f t h1 h2; simp [Args.row, h1, h2]
+  · intro f t h1 h2 h3
+    rcases h3 with h3 | h3 <;> simp [Args.row, Args.rescales, h1, h2, h3]
+  · intro f h1 h2 h3; simp [Args.row, Args.rescales, h1, h2, h3]
+  · intro f t h1 h2 h3
+    rcases h3 with h3 | h3 <;> simp [Args.row, Args.rescales, h1, h2, h3]
+
+/-- The constructor is defined exactly when every given chemical is in the package and it does not have to
+divide by a zero sum of the given values (`total_flow=` with all given flows zero raises
+`ZeroDivisionError` in the code): then, and only then, the rescaling factor `t / a.given` of
+`ctor_units_total` is a genuine quotient. -/
+theorem ctor_defined_iff (w : World) (a : Args) :
+    (∃ r, w.ctor a = .ok r) ↔ (a.flowsOk = true ∧ (a.rescales = true → a.given ≠ 0)) := by
+  constructor
+  · rintro ⟨r, h⟩
+    have hf : a.flowsOk = true := by
+      cases hf : a.flowsOk with
+      | true => rfl
+      | false => simp [World.ctor, hf] at h
+    refine ⟨hf, fun hr hg => ?_⟩
+    simp [World.ctor, hf, hr, hg] at h
+  · rintro ⟨hf, hz⟩
+    have hz' : (a.rescales && a.given == 0) = false := by
+      cases hr : a.rescales with
+      | false => simp
+      | true => simpa using hz hr
+    unfold World.ctor
+    simp only [hf, hz', Bool.not_true, Bool.false_eq_true, if_false]
+    split <;> exact ⟨_, rfl⟩
 
 /-- `MultiStream.from_streams`: the new multi-phase stream has the sorted phases of the given single-phase
 streams, its row objects are their row objects (so flows are equal and shared), its thermal-condition object
@@ -343,12 +377,13 @@ theorem link_kinds (w : World) (t s : Nat) (f p tp : Bool) (w' : World) (h : w.l
     simp [hmt, hms, World.isMat] at h ⊢
 
 /-- `unlink` preserves every observable value of the stream and ends all sharing: afterwards the
-stream's indexer, phase container, rows (array) and thermal condition are new objects, so (with
-`Scoped`) no other stream refers to any of them; only the characterization-factor dict is kept.
-No other stream changes. -/
+stream's indexer, phase container, rows (array), thermal condition and characterization-factor dict are
+all new objects, so (with `Scoped`) no other stream refers to any object of the stream.
+No other stream changes.  (Behaviour with fix C13-13: `unlink` also takes a private copy of the
+characterization-factor dict, which a proxy shares with its original.) -/
 theorem unlink_preserves_and_separates (w : World) (s : Nat) (hsc : Scoped w) (hs : s < w.nS) :
     (w.unlink s).observe s = w.observe s ∧
-    (∀ x ∈ (w.unlink s).fp s, x = (w.strs s).cf ∨ ∀ j, j < w.nS → j ≠ s → x ∉ (w.unlink s).fp j) ∧
+    (∀ x ∈ (w.unlink s).fp s, ∀ j, j < w.nS → j ≠ s → x ∉ (w.unlink s).fp j) ∧
     (∀ j, j < w.nS → j ≠ s → (w.unlink s).fp j = w.fp j ∧ (w.unlink s).observe j = w.observe j) := by
   have hframe : ∀ j, j < w.nS → j ≠ s → (w.unlink s).fp j = w.fp j ∧ (w.unlink s).observe j = w.observe j :=
     fun j hj hne => frame_of_writes hsc (writes_unlink w s) j hj hne (fun _ _ h => h)
@@ -359,14 +394,11 @@ theorem unlink_preserves_and_separates (w : World) (s : Nat) (hsc : Scoped w) (h
     simp only [World.unlink, World.observe]
     simp [World.phasesOf, World.rowIdsOf] at hp hf ⊢
     exact ⟨hp, hf⟩
-  · intro x hx
-    rcases unlink_fresh w s x hx with h | h
-    · exact Or.inl h
-    · right
-      intro j hj hne hxj
-      rw [(hframe j hj hne).1] at hxj
-      have := hsc j hj x hxj
-      omega
+  · intro x hx j hj hne hxj
+    have h := unlink_fresh w s x hx
+    rw [(hframe j hj hne).1] at hxj
+    have := hsc j hj x hxj
+    omega
 
 /-! ## Pickling -/
 
